@@ -11,6 +11,14 @@ package main
 // generated case (never read back from the file system); symlinks are resolved by a small resolver
 // and fastwalk's loop protection is applied here (a symlink to a directory that is a textual ancestor
 // gets an empty target), as stated in the interface at the top of coq/model/WalkModel.v.
+//
+// Both routes are BOUNDED: the spec's listing is finite (loop protection), so an implementation that has
+// delivered more than twice as many items (plus a margin) as there are entries to list can never come back to
+// "each entry exactly once".  The in-process walk is then stopped the way the terminal stops a reader
+// (Reader.terminate through hook VerifWalk.Stop), the process is cut off by closing its output, and the run is
+// reported as a violation of the property itself (kind "spec") with the generated world as the failing input.
+// A walk that delivers nothing but does not come back either is stopped by a generous deadline and reported
+// only when a second, longer attempt does not come back either.
 
 import (
 	"context"
@@ -21,6 +29,7 @@ import (
 	"path/filepath"
 	"sort"
 	"strings"
+	"sync"
 	"syscall"
 	"time"
 	"unsafe"
@@ -177,10 +186,65 @@ func (x *c19Expander) expand(dir *c19Node, canon []string, chain []string) Val {
 	return L(out...)
 }
 
-// the wire value [[root, entries]...] for the case; ok=false when a root does not name a directory
-func c19Roots(cs c19Case) (Val, map[string]int, bool) {
+// the world as the graph of coq/spec/WalkLinkSpec.v: directories numbered (0 = the world directory), entries
+// [kind, name, number] with link targets resolved by c19Resolve
+type c19Graph struct {
+	ids map[string]int
+	val Val
+}
+
+func c19BuildGraph(world *c19Node) *c19Graph {
+	g := &c19Graph{ids: map[string]int{}}
+	var number func(d *c19Node, canon []string)
+	number = func(d *c19Node, canon []string) {
+		g.ids[c19ID(canon)] = len(g.ids)
+		for _, ch := range d.C {
+			if ch.K == 1 {
+				number(ch, append(append([]string{}, canon...), ch.N))
+			}
+		}
+	}
+	number(world, []string{})
+	binds := make([]Val, len(g.ids))
+	var fill func(d *c19Node, canon []string)
+	fill = func(d *c19Node, canon []string) {
+		ents := []Val{}
+		for _, ch := range d.C {
+			switch ch.K {
+			case 0:
+				ents = append(ents, L(I(0), Bytes(ch.N), I(0)))
+			case 1:
+				sub := append(append([]string{}, canon...), ch.N)
+				ents = append(ents, L(I(1), Bytes(ch.N), I(g.ids[c19ID(sub)])))
+				fill(ch, sub)
+			case 2:
+				res, ok := c19Resolve(world, canon, ch.T, 0)
+				var tn *c19Node
+				if ok {
+					tn = c19NodeAt(world, res)
+				}
+				if tn == nil || tn.K != 1 {
+					ents = append(ents, L(I(2), Bytes(ch.N), I(0)))
+				} else {
+					ents = append(ents, L(I(3), Bytes(ch.N), I(g.ids[c19ID(res)])))
+				}
+			}
+		}
+		id := g.ids[c19ID(canon)]
+		binds[id] = L(I(id), L(ents...))
+	}
+	fill(world, []string{})
+	g.val = L(binds...)
+	return g
+}
+
+// the wire value [[root, entries]...] for the case and, per root, the argument of op 1906 (fuel, directories on
+// the way, root directory, graph); ok=false when a root does not name a directory
+func c19RootsG(cs c19Case) (Val, map[string]int, []Val, bool) {
 	world := &c19Node{K: 1, C: cs.World}
 	x := &c19Expander{world: world, stats: map[string]int{}}
+	graph := c19BuildGraph(world)
+	unfoldArgs := []Val{}
 	cwd := []string{}
 	if cs.Cwd != "" {
 		cwd = strings.Split(cs.Cwd, "/")
@@ -189,24 +253,60 @@ func c19Roots(cs c19Case) (Val, map[string]int, bool) {
 	for _, r := range cs.Roots {
 		res, ok := c19Resolve(world, cwd, r, 0)
 		if !ok {
-			return Val{}, nil, false
+			return Val{}, nil, nil, false
 		}
 		n := c19NodeAt(world, res)
 		if n == nil || n.K != 1 {
-			return Val{}, nil, false
+			return Val{}, nil, nil, false
 		}
+		// fastwalk's ancestor test (shouldTraverse) compares a link's target with filepath.Dir^k of the joined path:
+		// the cleaned root and its lexical parents, down to "." (the current directory) for a relative root and
+		// to "/" for an absolute one.  Directories above the world have identities no link of the world can name.
 		chain := []string{}
-		for i := 0; i <= len(res); i++ {
-			chain = append(chain, c19ID(res[:i]))
+		if strings.HasPrefix(r, "$W") {
+			q := filepath.Clean("/" + strings.TrimPrefix(r, "$W"))
+			for {
+				pr, ok := c19Resolve(world, []string{}, "$W"+q, 0)
+				if !ok {
+					return Val{}, nil, nil, false
+				}
+				chain = append(chain, c19ID(pr))
+				if q == "/" {
+					break
+				}
+				q = filepath.Dir(q)
+			}
+		} else {
+			q := filepath.Clean(r)
+			for {
+				pr, ok := c19Resolve(world, cwd, q, 0)
+				if !ok {
+					return Val{}, nil, nil, false
+				}
+				chain = append(chain, c19ID(pr))
+				if q == "." || q == "/" {
+					break
+				}
+				q = filepath.Dir(q)
+			}
 		}
 		// the root string as the implementation receives it
 		roots = append(roots, L(Bytes(r), x.expand(n, res, chain)))
+		cids := []int{}
+		for _, id := range chain {
+			n, known := graph.ids[id]
+			if !known {
+				return Val{}, nil, nil, false
+			}
+			cids = append(cids, n)
+		}
+		unfoldArgs = append(unfoldArgs, L(I(c19UnfoldFuel), Ints(cids), I(graph.ids[c19ID(res)]), graph.val))
 	}
 	if x.nodes > 4000 {
-		return Val{}, nil, false
+		return Val{}, nil, nil, false
 	}
 	x.stats["nodes"] = x.nodes
-	return L(roots...), x.stats, true
+	return L(roots...), x.stats, unfoldArgs, true
 }
 
 // ---------- the world on disk ----------
@@ -257,22 +357,95 @@ func c19WireRoots(v Val, cs c19Case, w string) Val {
 	return L(out...)
 }
 
-func c19Hook(cs c19Case, w string, run c19Run) (items []string, panicked string) {
+// what a bounded run of the implementation says besides the items
+type c19Stop struct {
+	Over     bool   // more than `limit` items arrived: stopped
+	Deadline bool   // did not return within the deadline: stopped
+	Msg      string // panic / error / "did not stop"
+}
+
+var c19Deadlines = []time.Duration{5 * time.Second, 90 * time.Second}
+const c19UnfoldFuel = 64 // depth bound of the unfolding (the result does not depend on it: unfold_fuel_irrelevant)
+var c19RunawaySeen = 0 // runs of this process in which the walker had to be stopped
+
+func c19Hook(cs c19Case, w string, run c19Run, limit int, deadline time.Duration) (items []string, st c19Stop) {
 	old, _ := os.Getwd()
 	if err := os.Chdir(filepath.Join(w, cs.Cwd)); err != nil {
-		return nil, "chdir: " + err.Error()
+		return nil, c19Stop{Msg: "chdir: " + err.Error()}
 	}
 	defer os.Chdir(old)
-	defer func() {
-		if r := recover(); r != nil {
-			panicked = fmt.Sprint(r)
+	var mu sync.Mutex
+	items = []string{}
+	over := false
+	var wk *fzf.VerifWalk
+	wk = fzf.VerifNewWalk(func(s string) {
+		mu.Lock()
+		if len(items) < limit {
+			items = append(items, s)
+		} else if !over {
+			over = true
+			go wk.Stop()
 		}
-	}()
-	items, ok := fzf.VerifReadFiles(c19RealRoots(cs, w), run.Opts[0], run.Opts[1], run.Opts[2], run.Opts[3], run.Skips)
-	if !ok {
-		return items, "readFiles returned false"
+		mu.Unlock()
+	})
+	type result struct {
+		ok  bool
+		pan string
 	}
-	return items, ""
+	done := make(chan result, 1)
+	go func() {
+		res := result{}
+		defer func() {
+			if r := recover(); r != nil {
+				res.pan = fmt.Sprint(r)
+			}
+			done <- res
+		}()
+		res.ok = wk.Run(c19RealRoots(cs, w), run.Opts[0], run.Opts[1], run.Opts[2], run.Opts[3], run.Skips)
+	}()
+	var res result
+	timer := time.NewTimer(deadline)
+	defer timer.Stop()
+	select {
+	case res = <-done:
+	case <-timer.C:
+		st.Deadline = true
+		wk.Stop()
+		select {
+		case res = <-done:
+		case <-time.After(60 * time.Second):
+			st.Msg = "the walk did not stop within 60 s of Reader.terminate"
+			mu.Lock()
+			items = append([]string{}, items...)
+			mu.Unlock()
+			return items, st
+		}
+	}
+	mu.Lock()
+	st.Over = over
+	mu.Unlock()
+	if res.pan != "" {
+		st.Msg = res.pan
+	} else if !res.ok && !st.Over && !st.Deadline {
+		st.Msg = "readFiles returned false"
+	}
+	return items, st
+}
+
+// a writer that accepts at most max bytes; the process behind it then gets a closed pipe
+type c19CapWriter struct {
+	b    []byte
+	max  int
+	over bool
+}
+
+func (cw *c19CapWriter) Write(p []byte) (int, error) {
+	if len(cw.b)+len(p) > cw.max {
+		cw.over = true
+		return 0, fmt.Errorf("output cap reached")
+	}
+	cw.b = append(cw.b, p...)
+	return len(p), nil
 }
 
 // a pty whose slave side serves as fzf's stdin (the walker only runs when stdin is a terminal)
@@ -309,10 +482,19 @@ func c19WalkerArg(o [4]bool) string {
 	return strings.Join(parts, ",")
 }
 
-func c19Proc(c *Ctx, pty *c19Pty, cs c19Case, w string, run c19Run) ([]string, string) {
+// maxBytes bounds the output (0: 64 MiB); over=true when the process wrote more and was cut off
+func c19Proc(c *Ctx, pty *c19Pty, cs c19Case, w string, run c19Run, maxBytes int) (items []string, msg string, over bool) {
+	items, msg, over = c19ProcRun(c, pty, cs, w, run, maxBytes)
+	return
+}
+
+func c19ProcRun(c *Ctx, pty *c19Pty, cs c19Case, w string, run c19Run, maxBytes int) ([]string, string, bool) {
+	if maxBytes <= 0 {
+		maxBytes = 64 << 20
+	}
 	slave, err := os.OpenFile(pty.slave, os.O_RDWR|syscall.O_NOCTTY, 0)
 	if err != nil {
-		return nil, "pty: " + err.Error()
+		return nil, "pty: " + err.Error(), false
 	}
 	defer slave.Close()
 	args := []string{"--walker=" + c19WalkerArg(run.Opts), "--walker-root"}
@@ -327,42 +509,57 @@ func c19Proc(c *Ctx, pty *c19Pty, cs c19Case, w string, run c19Run) ([]string, s
 	cmd := exec.CommandContext(ctx, c.Fzf, args...)
 	cmd.Dir = filepath.Join(w, cs.Cwd)
 	cmd.Stdin = slave
-	var out, errb strings.Builder
-	cmd.Stdout = &out
+	var errb strings.Builder
+	out := &c19CapWriter{max: maxBytes}
+	cmd.Stdout = out
 	cmd.Stderr = &errb
 	cmd.Env = []string{"PATH=" + os.Getenv("PATH"), "HOME=" + os.Getenv("HOME"), "TERM=xterm-256color",
 		"TMPDIR=" + c.Work, "SHELL=/bin/sh", "FZF_DEFAULT_OPTS=", "FZF_DEFAULT_COMMAND="}
 	err = cmd.Run()
 	code := 0
+	s := string(out.b)
+	if out.over {
+		// cut off: the complete items received so far
+		if i := strings.LastIndexByte(s, 0); i >= 0 {
+			return strings.Split(s[:i], "\x00"), "", true
+		}
+		return []string{}, "", true
+	}
 	if err != nil {
 		if ee, ok := err.(*exec.ExitError); ok {
 			code = ee.ExitCode()
 		} else {
-			return nil, "start: " + err.Error()
+			return nil, "start: " + err.Error(), false
 		}
 	}
 	if ctx.Err() != nil {
-		return nil, "timeout"
+		return nil, "timeout", false
 	}
-	s := out.String()
 	items := []string{}
 	if s != "" {
 		if !strings.HasSuffix(s, "\x00") {
-			return nil, fmt.Sprintf("unterminated output %q (exit %d, stderr %q)", s, code, errb.String())
+			return nil, fmt.Sprintf("unterminated output %q (exit %d, stderr %q)", s, code, errb.String()), false
 		}
 		items = strings.Split(strings.TrimSuffix(s, "\x00"), "\x00")
 	}
 	// exit status: 0 when something was listed, 1 when nothing
 	if (len(items) > 0 && code != 0) || (len(items) == 0 && code != 1) {
-		return items, fmt.Sprintf("exit %d with %d items (stderr %q)", code, len(items), errb.String())
+		return items, fmt.Sprintf("exit %d with %d items (stderr %q)", code, len(items), errb.String()), false
 	}
-	return items, ""
+	return items, "", false
 }
 
 func c19Sorted(xs []string) []string {
 	out := append([]string{}, xs...)
 	sort.Strings(out)
 	return out
+}
+
+func c19Head(xs []string, n int) []string {
+	if len(xs) > n {
+		return xs[:n]
+	}
+	return xs
 }
 
 func c19ValStrs(v Val) []string {
@@ -385,12 +582,117 @@ func c19Eq(a, b []string) bool {
 	return true
 }
 
+// the file system as a function of the path (the world does not change while a case is checked)
+type c19FS struct {
+	st, lst map[string]os.FileInfo
+}
+
+func (f *c19FS) stat(p string) os.FileInfo {
+	if fi, ok := f.st[p]; ok {
+		return fi
+	}
+	fi, err := os.Stat(p)
+	if err != nil {
+		fi = nil
+	}
+	f.st[p] = fi
+	return fi
+}
+
+func (f *c19FS) lstat(p string) os.FileInfo {
+	if fi, ok := f.lst[p]; ok {
+		return fi
+	}
+	fi, err := os.Lstat(p)
+	if err != nil {
+		fi = nil
+	}
+	f.lst[p] = fi
+	return fi
+}
+
+// For every listed path, every proper prefix of it (cut at a separator) that lies below the root and is a symbolic
+// link must (1) not exist at all without `follow`, and (2) not name a directory that a shorter prefix of the same
+// path (or the current directory, for a relative path) names as well.  Returns the first offence.
+func c19LinkChecks(f *c19FS, w string, cs c19Case, run c19Run, got []string) (name, item, expect string) {
+	base := filepath.Clean(w + "/" + cs.Cwd)
+	abs := func(p string) string {
+		if strings.HasPrefix(p, "/") {
+			return p
+		}
+		return base + "/" + p
+	}
+	roots := []string{}
+	for _, r := range c19RealRoots(cs, w) {
+		roots = append(roots, filepath.Clean(abs(r)))
+	}
+	atOrAboveRoot := func(full string) bool {
+		cl := filepath.Clean(full)
+		for _, r := range roots {
+			if r == cl || cl == "/" || strings.HasPrefix(r, cl+"/") {
+				return true
+			}
+		}
+		return false
+	}
+	for _, it := range got {
+		// the path as the walker's ancestor test sees it (filepath.Dir cleans): "ext/../R/x" is R/x, below R and "."
+		p := filepath.Clean(strings.TrimSuffix(it, "/"))
+		var anc []os.FileInfo
+		first := base
+		if strings.HasPrefix(p, "/") {
+			first = "/"
+		}
+		if fi := f.stat(first); fi != nil {
+			anc = append(anc, fi)
+		}
+		for i := 1; i < len(p); i++ {
+			if p[i] != '/' {
+				continue
+			}
+			full := abs(p[:i])
+			si := f.stat(full)
+			if si == nil {
+				break // listed_path_exists speaks about this one
+			}
+			li := f.lstat(full)
+			if li != nil && li.Mode()&os.ModeSymlink != 0 && !atOrAboveRoot(full) {
+				if !run.Opts[2] {
+					return "descends_links_only_with_follow", it, "without `follow` nothing below the symbolic link " + p[:i] + " is listed"
+				}
+				for _, a := range anc {
+					if os.SameFile(a, si) {
+						return "no_lap_through_link_cycle", it, "the symbolic link " + p[:i] + " leads back to a directory this path has already gone through: it is listed (as a leaf) but not entered again"
+					}
+				}
+			}
+			anc = append(anc, si)
+		}
+	}
+	return "", "", ""
+}
+
 func c19Check(c *Ctx, pty *c19Pty, cs c19Case, seq int) {
 	rep := c.Rep
-	rootsV, stats, ok := c19Roots(cs)
+	rootsV, stats, unfoldArgs, ok := c19RootsG(cs)
 	if !ok {
 		rep.Count("case_rejected")
 		return
+	}
+	// the trees handed to spec and model are the finite unfolding of the world computed by the extracted SPEC
+	// (op 1906, coq/spec/WalkLinkSpec.v: a link that leads back to a directory on its own path is a leaf); the
+	// expander above is kept as a second, independent computation of the same thing
+	for i, ua := range unfoldArgs {
+		uv := c.Model.Call(1906, ua)
+		if !(uv.IsList && len(uv.L) == 2 && uv.L[0].I == 1) {
+			rep.Count("case_rejected(unfold out of fuel)")
+			return
+		}
+		if !uv.L[1].Equal(rootsV.L[i].L[1]) {
+			rep.Disagreement(Disagreement{Kind: "corr", Name: "corr:C19.unfold (harness expander vs spec unfolding)", Input: cs,
+				Impl: rootsV.L[i].L[1].String(), Expect: uv.L[1].String()})
+		}
+		rootsV.L[i] = L(rootsV.L[i].L[0], uv.L[1])
 	}
 	w := filepath.Join(c.Work, fmt.Sprintf("c19w%d", seq%4))
 	os.RemoveAll(w)
@@ -407,6 +709,7 @@ func c19Check(c *Ctx, pty *c19Pty, cs c19Case, seq int) {
 	for k, v := range stats {
 		rep.CountN(k, v)
 	}
+	fsc := &c19FS{st: map[string]os.FileInfo{}, lst: map[string]os.FileInfo{}}
 	for _, run := range cs.Runs {
 		one := c19Case{cs.World, cs.Cwd, cs.Roots, []c19Run{run}, "hook"}
 		key, _ := json.Marshal(one)
@@ -420,19 +723,74 @@ func c19Check(c *Ctx, pty *c19Pty, cs c19Case, seq int) {
 			model = c19Sorted(c19ValStrs(modelV.L[1]))
 		}
 		impls := map[string][]string{}
-		items, pan := c19Hook(cs, w, run)
+		// bounded runs (see the header): the listing is finite, so is what a correct walker may deliver
+		limit := 2*len(spec) + 64
+		specBytes := 0
+		for _, s := range spec {
+			specBytes += len(s) + 1
+		}
+		runaway := false
+		// deadlines: 5 s for a walk that normally takes milliseconds; a miss is not a verdict: the walk is run once
+		// more with 90 s, and only a second miss is reported.  Once the run has seen a walker that does not come
+		// back, later misses are cut short (1 s) and only counted.
+		first := c19Deadlines[0]
+		if c19RunawaySeen > 0 {
+			first = time.Second
+		}
+		items, st := c19Hook(cs, w, run, limit, first)
 		rep.ImplTraces++
-		if pan != "" {
-			rep.Disagreement(Disagreement{Kind: "spec", Name: "no_crash(hook)", Input: one, Impl: pan, Expect: "no panic / error"})
-		} else {
+		unconfirmed := false
+		if st.Deadline && !st.Over && st.Msg == "" {
+			if c19RunawaySeen > 0 {
+				unconfirmed = true
+				rep.Count("hook_deadline_after_runaway")
+			} else {
+				rep.Count("hook_deadline_retry")
+				items, st = c19Hook(cs, w, run, limit, c19Deadlines[1])
+			}
+		}
+		switch {
+		case unconfirmed:
+			runaway = true
+		case st.Over:
+			runaway = true
+			c19RunawaySeen++
+			rep.Count("runaway(hook)")
+			rep.SpecChecks++
+			rep.Disagreement(Disagreement{Kind: "spec", Name: "each_entry_exactly_once(hook)", Input: one,
+				Impl:   map[string]interface{}{"stopped_after_items": len(items), "some_items": c19Head(c19Sorted(items), 40)},
+				Expect: map[string]interface{}{"items": len(spec), "listing": c19Head(spec, 80)}})
+		case st.Deadline && st.Msg == "":
+			runaway = true
+			c19RunawaySeen++
+			rep.Count("runaway(hook)")
+			if run.Opts[0] || run.Opts[1] { // a walker with neither file nor dir cannot be asked for (options.go rejects it)
+				rep.SpecChecks++
+				rep.Disagreement(Disagreement{Kind: "spec", Name: "walk_terminates(hook)", Input: one,
+					Impl:   map[string]interface{}{"still_walking_after_s": c19Deadlines[1].Seconds(), "items_so_far": len(items), "some_items": c19Head(c19Sorted(items), 40)},
+					Expect: map[string]interface{}{"items": len(spec), "listing": c19Head(spec, 80)}})
+			}
+		case st.Msg != "":
+			rep.Disagreement(Disagreement{Kind: "spec", Name: "no_crash(hook)", Input: one, Impl: st.Msg, Expect: "no panic / error"})
+		default:
 			impls["hook"] = items
 		}
-		if run.Proc && pty != nil && (run.Opts[0] || run.Opts[1]) {
+		if runaway {
+			rep.Count("process_skipped_after_runaway")
+		}
+		if !runaway && run.Proc && pty != nil && (run.Opts[0] || run.Opts[1]) {
 			one.Via = "process"
-			items, msg := c19Proc(c, pty, cs, w, run)
+			items, msg, over := c19Proc(c, pty, cs, w, run, 2*specBytes+(64<<10))
 			rep.ImplTraces++
 			rep.Count("via_process")
-			if msg != "" {
+			if over {
+				c19RunawaySeen++
+				rep.Count("runaway(process)")
+				rep.SpecChecks++
+				rep.Disagreement(Disagreement{Kind: "spec", Name: "each_entry_exactly_once(process)", Input: one,
+					Impl:   map[string]interface{}{"cut_off_after_items": len(items), "some_items": c19Head(c19Sorted(items), 40)},
+					Expect: map[string]interface{}{"items": len(spec), "listing": c19Head(spec, 80)}})
+			} else if msg != "" {
 				rep.Disagreement(Disagreement{Kind: "spec", Name: "process_runs", Input: one, Impl: msg, Expect: "NUL-terminated items, exit 0 (items) or 1 (none)"})
 			} else {
 				impls["process"] = items
@@ -501,6 +859,12 @@ func c19Check(c *Ctx, pty *c19Pty, cs c19Case, seq int) {
 						break
 					}
 				}
+			}
+			// symbolic links on the way to a listed path, judged by the file system itself (independent of the generated
+			// case, of the resolver above and of the model): without `follow` there is none below a root; with `follow`
+			// none of them leads back to a directory the path has already gone through (each entry once, not once per lap)
+			if name, it, exp := c19LinkChecks(fsc, w, cs, run, got); name != "" {
+				rep.Disagreement(Disagreement{Kind: "spec", Name: name + "(" + via + ")", Input: one, Impl: it, Expect: exp})
 			}
 			if len(cs.Roots) == 1 {
 				for i := 1; i < len(got); i++ {
@@ -650,6 +1014,70 @@ func c19Gen(r *RNG) c19Case {
 			}
 		}
 	}
+	// link cycles on purpose: links to the directory they live in, to its parent, to any ancestor (the world
+	// directory above the walked tree included), to the walked root, pairs of directories that point at each other,
+	// chains of links that end at an ancestor, and a round trip through ext.  A walker that follows links must
+	// list such a link once (as a leaf) and come back.
+	if r.Chance(2, 5) {
+		inR := []c19Loc{}
+		var extLoc *c19Loc
+		for i, d := range dirs {
+			if d.canon[0] == "R" {
+				inR = append(inR, d)
+			} else if len(d.canon) == 1 && d.canon[0] == "ext" {
+				extLoc = &dirs[i]
+			}
+		}
+		add := func(d c19Loc, nm, text string) {
+			if c19Lookup(d.node, nm) != nil {
+				return
+			}
+			n := &c19Node{K: 2, N: nm, T: text}
+			d.node.C = append(d.node.C, n)
+			links = append(links, c19Loc{append(append([]string{}, d.canon...), nm), n})
+		}
+		lnames := []string{"self", "up", "loop", "back", "l", "zz", ".loop", "a", "x y", "..x"}
+		for i, n := 0, Pick(r, []int{1, 1, 2, 2, 3}); i < n && len(inR) > 0; i++ {
+			d := Pick(r, inR)
+			nm := Pick(r, lnames)
+			switch r.Intn(9) {
+			case 0:
+				add(d, nm, Pick(r, []string{".", ".", "./", "./."}))
+			case 1:
+				add(d, nm, Pick(r, []string{"..", "..", "../", "../."}))
+			case 2: // k levels up, at most to the world directory
+				k := r.Range(1, len(d.canon))
+				add(d, nm, strings.TrimSuffix(strings.Repeat("../", k), "/"))
+			case 3: // the same by an absolute text
+				k := r.Intn(len(d.canon) + 1)
+				add(d, nm, strings.TrimSuffix("$W/"+strings.Join(d.canon[:k], "/"), "/"))
+			case 4: // the walked tree's top
+				if r.Bool() {
+					add(d, nm, c19Rel(d.canon, []string{"R"}))
+				} else {
+					add(d, nm, "$W/R")
+				}
+			case 5: // two directories that point at each other
+				e := Pick(r, inR)
+				add(d, nm, c19Rel(d.canon, e.canon))
+				add(e, Pick(r, lnames), c19Rel(e.canon, d.canon))
+			case 6: // a chain of links that ends at an ancestor
+				nm2 := Pick(r, lnames)
+				if nm2 != nm {
+					add(d, nm2, Pick(r, []string{"..", "."}))
+					add(d, nm, nm2)
+				}
+			case 7: // out to ext and back
+				if extLoc != nil {
+					add(*extLoc, Pick(r, lnames), c19Rel([]string{"ext"}, d.canon))
+					add(d, nm, c19Rel(d.canon, []string{"ext"}))
+				}
+			default: // two links to ancestors side by side (a walker that laps doubles its output at every level)
+				add(d, nm, ".")
+				add(d, Pick(r, lnames), "..")
+			}
+		}
+	}
 	// roots
 	rdirs := []c19Loc{}
 	for _, d := range dirs {
@@ -792,7 +1220,7 @@ func c19TrimPaths(c *Ctx) {
 }
 
 func runC19(c *Ctx) {
-	c.Rep.Rule = "random directory worlds (walked tree depth<=4, empty dirs, hidden files/dirs, symlinks to files/dirs/ancestors/dangling/chains, relative and absolute link texts, names with blanks/newlines/backslashes/quotes); roots '.', relative, absolute, with ./ and trailing /, sub-directories, two roots; 4 option/skip combinations per world (skip entries: base names, paths, /suffixes, near misses), one of them also through the fzf process on a pty; non-trivial = at least one directory, a non-empty listing and (a skip list or a followed dir-symlink or hidden off); distinct by JSON of (world, roots, run)"
+	c.Rep.Rule = "random directory worlds (walked tree depth<=4, empty dirs, hidden files/dirs, symlinks to files/dirs/ancestors/dangling/chains, link cycles on purpose in 2 of 5 worlds (self, parent, any ancestor up to the world directory above the root, the root, mutual pairs, chains ending at an ancestor, round trips through ext, two ancestor links side by side), relative and absolute link texts, names with blanks/newlines/backslashes/quotes); roots '.', relative, absolute, with ./ and trailing /, sub-directories, two roots; 4 option/skip combinations per world (skip entries: base names, paths, /suffixes, near misses), one of them also through the fzf process on a pty; non-trivial = at least one directory, a non-empty listing and (a skip list or a followed dir-symlink or hidden off); distinct by JSON of (world, roots, run)"
 	pty, err := c19OpenPty()
 	if err != nil {
 		c.Rep.Extra["pty_error"] = err.Error()
